@@ -4,7 +4,7 @@ from .common import *
 RULE = ("keygen with parameter lists of length 0..10; sign / lifetime / try_sign with key lengths 0..64, every value of every parameter byte "
         "(values that denote valid trees of height >= 10 are only exercised through the counter hooks, they would really be generated), wiped and "
         "exhausted keys; keygen / sign with aux buffers of every short length, every level-word byte corrupted, marker-only buffers; "
-        "oracle: catch_unwind, and on error paths callback trace empty and no signature")
+        "oracle: catch_unwind, and on error paths callback trace empty and no signature; the aux layout arithmetic (hook) for every top-tree height and buffer lengths up to 2^26")
 ASSUMPTIONS = ["HssParameter::new(LmotsReserved|LmsReserved, ..) (an API-misuse panic in the parameter constructor itself, not in keygen) is outside the property"]
 
 
@@ -98,6 +98,22 @@ def run(ctx):
     ref_lines = sorted({c.meta["ref"] for c in cases if c.meta.get("ref")})
     for c, a, b in ctx.both([Case(l, "aux-reference") for l in ref_lines], None):
         refs[c.line] = a
+    # any auxiliary buffer for any top-tree height: the layout arithmetic on a fresh buffer (real get_aux_data_len / optimal_aux_level /
+    # store_aux_marker / expand_aux_data through the hook, no tree needed) must not panic for tall trees and long buffers either
+    shape_cases = []
+    for H in (ALL_H if ctx.tier == "thorough" else ["S32", "K24", "S16"]):
+        n = HASHES[H]
+        for t in (1, 5, 6, 7, 8, 9):
+            h0 = LMS_H[t]
+            lens = {1, 2, 3, 4, 5, 4 + n - 1, 4 + n, 4 + n + 1, 4 + 2 * n, 40, 300, 10000, 65535, 65536, 65537, 70000, 2 ** 21, 2 ** 21 + 36 + 5, 2 ** 26 + 37}
+            for lvl in range(1, h0 + 1):
+                if (n << lvl) <= 2 ** 26:
+                    lens.update({4 + n + (n << lvl) - 1, 4 + n + (n << lvl), 4 + n + (n << lvl) + (n << max(lvl - 2, 1))})
+            for L in (sorted(lens) if ctx.tier == "thorough" else rng.sample(sorted(lens), min(len(lens), 16))):
+                shape_cases.append(Case("auxshape H=%s lms=%d len=%d" % (H, t, L), "auxshape/h%d" % h0))
+    for c, a, b in ctx.both(shape_cases, None):
+        if a.startswith("panic"):
+            ctx.fail("keygen/sign/lifetime panicked on malformed input: aux layout computation for a fresh buffer", [c.line], a, "ok or err")
     for c, a, b in ctx.both(cases, proj_err_trace):
         oracle(ctx, c, a)
         if c.meta.get("ref") and a.startswith("ok"):
